@@ -1,6 +1,7 @@
 import EaselModel.Core.Proto
 import EaselModel.Alphabet.Model
 import EaselModel.Alphabet.SqModel
+import EaselModel.Alphabet.GuessModel
 /-! Line-protocol driver for the C08 model (same ops as harness/h_alphabet.c). -/
 open EaselModel EaselModel.Proto EaselModel.Alphabet
 
@@ -213,6 +214,44 @@ def step (s : S) (line : String) : S × String :=
     let sc := (parseIList ((arg? ws "sc").getD "-")).map fun (i : Int) => (Float32.ofInt i)
     match a.expectScore ((argNat? ws "x").getD 0) sc (parseFList ((arg? ws "p").getD "-")) with
     | some r => (s, s!"ok {if a.xIsResidue ((argNat? ws "x").getD 0) then roundI r else 0}") | none => (s, "fault")
+  else if op == "dscvec" then
+    let sc := parseDList ((arg? ws "sc").getD "-")
+    if sc.length ≠ a.Kp then (s, "bad-op") else
+    match a.avgScVec sc with
+    | some r => (s, "ok " ++ ",".intercalate (r.map dnum)) | none => (s, "fault")
+  else if op == "dexpvec" then
+    let sc := parseDList ((arg? ws "sc").getD "-")
+    if sc.length ≠ a.Kp then (s, "bad-op") else
+    match a.expectScVec sc (parseDList ((arg? ws "p").getD "-")) with
+    | some r => (s, "ok " ++ ",".intercalate (r.map dnum)) | none => (s, "fault")
+  else if op == "fscvec" then
+    let sc := parseFList ((arg? ws "sc").getD "-")
+    if sc.length ≠ a.Kp then (s, "bad-op") else
+    match a.avgScVec sc with
+    | some r => (s, "ok " ++ ",".intercalate (r.map fnum)) | none => (s, "fault")
+  else if op == "fexpvec" then
+    let sc := parseFList ((arg? ws "sc").getD "-")
+    if sc.length ≠ a.Kp then (s, "bad-op") else
+    match a.expectScVec sc (parseFList ((arg? ws "p").getD "-")) with
+    | some r => (s, "ok " ++ ",".intercalate (r.map fnum)) | none => (s, "fault")
+  else if op == "iscvec" || op == "iexpvec" then
+    let sc := parseIList ((arg? ws "sc").getD "-")
+    if sc.length ≠ a.Kp then (s, "bad-op") else
+    let p := parseFList ((arg? ws "p").getD "-")
+    let f : Nat → List Int → Option Int := fun x sc =>
+      let scf := sc.map fun (i : Int) => Float32.ofInt i
+      let r := if op == "iscvec" then a.avgScore x scf else a.expectScore x scf p
+      r.map fun v => if a.xIsResidue x then roundI v else 0
+    match Alphabet.scVecLoop f (a.Kp - 3 - a.K) (a.K + 1) sc with
+    | some r => (s, "ok " ++ ",".intercalate (r.map toString)) | none => (s, "fault")
+  else if op == "guess" then
+    let ct := parseIList ((arg? ws "ct").getD "-")
+    let (ok, t) := Guess.guessAlphabet ct
+    (s, s!"{if ok then "ok" else "enoalphabet"} type={t}")
+  else if op == "validateseq" then
+    let txt := argBytes ws "hex"
+    let (st, msg) := Alphabet.validateSeqMsg (if (argNat? ws "noabc").getD 0 ≠ 0 then none else some a) txt
+    (s, s!"{st.name} {hx msg}")
   else if op == "match" then
     let p := (arg? ws "p").map parseDList
     match a.matchProb ((argNat? ws "x").getD 0) ((argNat? ws "y").getD 0) p with
